@@ -6,7 +6,7 @@
    every variant (the tree structure does not depend on the cut search).
    Rib = the same function applied to the rotated points recorded by the hook. *)
 From Coupe Require Import Lib.Prelude Lib.SFloat Model.Rcb Gen.RcbGen
-  Proofs.SFOrder Proofs.RcbProofs Proofs.RcbInst Proofs.RcbTotal Proofs.F32Rank Proofs.F32Flocq Proofs.RcbBox Proofs.RcbTotalInst Proofs.RcbSched Proofs.RcbSchedInst.
+  Proofs.SFOrder Proofs.RcbProofs Proofs.RcbInst Proofs.RcbTotal Proofs.F32Rank Proofs.F32Flocq Proofs.RcbBox Proofs.RcbTotalInst Proofs.RcbTotalInf Proofs.RcbTotalInfInst Proofs.RcbSched Proofs.RcbSchedInst.
 From Coq Require Import Floats.SpecFloat Permutation.
 Open Scope Z_scope.
 
@@ -151,6 +151,52 @@ Theorem C03_rcb_total : forall fuel sched D k tol pts ws p0,
   exists p, rcb_impl fuel sched D k tol pts ws p0 = Ok p.
 Proof. exact (fun fuel sched D k tol pts ws p0 => rcb_total32_contract rcb_variant fuel sched D k tol pts ws p0 eq_refl eq_refl). Qed.
 Print Assumptions C03_rcb_total.
+
+(* The whole usage contract "finite coordinates": EVERY finite f64 coordinate
+   set, including values beyond the binary32 range whose `as f32` image is
+   +-inf (never NaN).  No panic, no OutOfFuel, Ok with one id per point and
+   every id below 2^iter_count, for every schedule and tolerance.
+   Termination with infinite bounds: `min/2 + max/2` is +-inf or NaN when a
+   bound is infinite; then `min < middle < max` fails, the interval counts as
+   exhausted and the search returns after its last probe at max; the loop
+   continues only with a canonical non-NaN midpoint strictly between the
+   bounds, and the rank distance (rank32i: rank32 with +-(2^32+1) for the
+   infinities) decreases.  The cut positions handed to the children are max or
+   such a midpoint, hence never NaN; `split_pos as f64` is exact for +-inf too.
+   The canonical form of the midpoint comes from the Flocq links (real-number
+   axioms of the standard library). *)
+Theorem C03_rcb_total_finite_f64 : forall fuel sched D k tol pts ws p0,
+  (0 < D)%nat -> length ws = length p0 -> length pts = length p0 ->
+  Forall (fun p => length p = D) pts -> coords_finite_f64 pts ->
+  Z.of_nat fuel > 2 ^ 34 ->
+  exists p, rcb_impl fuel sched D k tol pts ws p0 = Ok p
+            /\ length p = length pts /\ Forall (fun i => (i < 2 ^ N.of_nat k)%N) p.
+Proof. exact (fun fuel sched D k tol pts ws p0 => rcb_total_finite_f64_ids rcb_variant fuel sched D k tol pts ws p0 eq_refl eq_refl eq_refl). Qed.
+Print Assumptions C03_rcb_total_finite_f64.
+
+(* the tree structure on the same contract.  Strictness with infinite images:
+   the two sides of a node are {x < pivot} / {not x < pivot} (or everything /
+   nothing), so every point whose image is +inf lies on the high side of every
+   node that separates on that axis and two +inf images are never separated:
+   `every low point strictly below every high point` holds as stated (flt is a
+   strict weak order on all non-NaN values, infinities included). *)
+Theorem C03_rcb_bisect_tree_finite_f64 : forall fuel sched D k tol pts ws p0 p,
+  coords_finite_f64 pts ->
+  rcb_impl fuel sched D k tol pts ws p0 = Ok p ->
+  length p = length pts
+  /\ (exists t, Permutation t (combine (to32 pts) p) /\ BisectTree spec_float flt D k 0%nat t)
+  /\ (pts <> [] -> Forall (fun i => (i < 2 ^ N.of_nat k)%N) p).
+Proof. exact (fun fuel sched D k tol pts ws p0 p Hf => rcb_bisect_tree rcb_variant fuel sched D k tol pts ws p0 p (finite_coords_ok pts Hf)). Qed.
+Print Assumptions C03_rcb_bisect_tree_finite_f64.
+
+(* non-vacuity: images -inf and +inf on the same axis; the model returns Ok
+   and the checker accepts the tree *)
+Example C03_finite_f64_nonvacuous :
+  let pts := map (fun x => [f64_of_Z x; f64_of_Z 0]) [- 10 ^ 39; 0; 1; 2; 3; 10 ^ 39; 10 ^ 39] in
+  coords_finite_f64 pts
+  /\ rcb_impl 400 seq_sched 2 2 (f64_of_bits 4587366580439587226%N) pts [1;1;1;1;1;1;1] [9;9;9;9;9;9;9]%N = Ok [0;0;0;0;0;0;0]%N
+  /\ check_bisect32 2 2 pts [0;0;0;0;0;0;0]%N = true.
+Proof. split; [repeat constructor|split; vm_compute; reflexivity]. Qed.
 
 (* on the narrow contract the root box of the model (per axis the f64 min / max
    found with `<` from (f64::MAX, f64::MIN), then cast `as f32`) has finite
